@@ -16,6 +16,10 @@ Clauses(e) ==
       <<"reflection-below-one", e.raised \/ e.maxk_ppm < 1000000>>,
       <<"variance-positive", e.raised \/ e.ppos>>,
       <<"lengths", e.raised \/ e.lens>>,
+      \* the reflection coefficients and the variance are those of the Levinson recursion on the biased autocorrelation
+      \* (reference: the recursion in extended precision); ratio of the deviation to what the conditioning of the
+      \* record allows (1e-12 * r0 / min P), in 1e-3 units
+      <<"reflection-coefficients-of-the-recursion", e.raised \/ ~Has(e, "k_ratio") \/ e.k_ratio <= 1000>>,
       <<"lpc-same-coefficients", e.raised \/ Small(e.lpc_dev, 10 * Tol)>> }
 
 VARIABLES l, fails
